@@ -103,6 +103,8 @@ def checker_lemma_factory(build_env, key, mk_case=None):
 
         def harness(eng):
             desc, envelope = build_env(eng)
+            from pysym.tmpl import freeze
+            freeze(envelope)
             it = Interp(eng, ovr)
             out = run_call(it, c.checkformat_delegating_metadata, [envelope])
             good = z3.And(wf(eng, desc), zb(desc['sig_wf']) if desc.get('sig_wf') is not None else z3.BoolVal(True))
@@ -121,6 +123,8 @@ def checker_lemma_factory(build_env, key, mk_case=None):
                 wit = mk(m)
                 from pysym.hutil import predicted
                 wit['predicted'] = predicted(out)
+            if any(e['kind'] == 'arg_mutation' for e in eng.events):
+                obs.append(dict(name='the checker does not store into its argument', status='sat', cex=mk(m)))
             rec = record(eng, out, obs, wit, ['accepts'] if is_ret(out) else ['rejects'])
             if is_ret(out):
                 rec['retkind'] = 'none' if out[1] is None else ('arg' if out[1] is envelope else 'other')
